@@ -186,7 +186,7 @@ Definition delta (miu : Q) (b : bundle) : Q :=
 (* returns None when the loop goes on, Some status (solver_status enumerator) when done() stops the solver *)
 Definition done_status (iter_ok valid converged : bool) : option Z :=
   if src_c03_done_stop converged (src_c03_done_step_ok iter_ok valid)
-  then Some (src_c03_done_status converged valid) else None.
+  then Some (src_c03_done_status converged (src_c03_done_step_ok iter_ok valid)) else None.   (* repo 85997bc *)
 Definition rqb_done (status : Z) (valid : bool) : option Z :=
   done_status (src_c03_rqb_iter_ok status) valid (src_c03_rqb_converged status).
 Definition fpba_done (status : Z) (valid : bool) : option Z :=
